@@ -11,6 +11,7 @@ Nothing here executes compiled code: the "program" being interpreted is the AST 
 current sources, and unknown inputs stay symbolic.
 """
 import copy
+import re
 
 from . import astdb
 from .astdb import kids, qtype, AnalysisBroken
@@ -256,6 +257,17 @@ class Interp:
             return not known[cond.args[0]]
         if cond.op == '!=' and cond.args[1] == 0 and cond.args[0] in known:
             return known[cond.args[0]]
+        # the complementary comparison of one already decided: (a < b) known  =>  (a >= b) is its negation; likewise mirrored operands
+        if cond.op in _REL_NEG and len(cond.args) == 2:
+            a_, b_ = cond.args
+            for op2, x_, y_, neg in ((_REL_NEG[cond.op], a_, b_, True), (_REL_SWAP[cond.op], b_, a_, False),
+                                     (_REL_NEG[_REL_SWAP[cond.op]], b_, a_, True)):
+                try:
+                    alt = Sym(op2, (x_, y_), cond.ctype)
+                except Exception:
+                    alt = None
+                if alt is not None and alt in known:
+                    return (not known[alt]) if neg else known[alt]
         # equality with distinct constants is exclusive: (X == c) decided true fixes X on this path
         eqc = None
         if cond.op in ('==', '!=') and len(cond.args) == 2:
@@ -932,7 +944,7 @@ class Interp:
         qt = _clean(qt)
         if qt in SIZEOF:
             return SIZEOF[qt]
-        if qt.endswith('*'):
+        if qt.endswith('*') or re.search(r'\*\s*(const|volatile|restrict)(\s+(const|volatile|restrict))*$', qt):
             return 8
         n = _array_len(qt)
         if n is not None:
@@ -988,7 +1000,13 @@ class Interp:
             lv = self.lvalue(sub)
             if lv[0] == 'sym':
                 return lv[1]
-            return self.load(lv[0], lv[1], n)
+            v = self.load(lv[0], lv[1], n)
+            if isinstance(lv[0], str) and isinstance(v, int) and v >= 128 and getattr(self, 'char_signed', True):
+                # a byte of a host string read through a plain/signed char lvalue: the analysed target's char is signed
+                t = self.tu_desugar(_clean(qtype(n))).replace('const ', '').strip()
+                if t in ('char', 'signed char'):
+                    v -= 256
+            return v
         if ck == 'ArrayToPointerDecay':
             if sub.get('kind') == 'StringLiteral':
                 return self.eval(sub)
